@@ -33,18 +33,81 @@ def weight : List Edge → Int
 
 /-! ### spec-level union–find: one label per node -/
 
-/-- a component label for every node (wrapped so that compiled code evaluates `union`'s two
-look-ups once per union, not once per later look-up) -/
+/-- a component label for every node: a table for the nodes `0 … lst.length-1` (every entry is
+again a node of the table); a node outside the table is its own label.  (A table rather than a
+closure chain so that 2500-node inputs run in milliseconds.) -/
 structure Lab where
-  f : Nat → Nat
+  lst : List Nat
+  ok : ∀ x ∈ lst, x < lst.length
 
-def Lab.id : Lab := ⟨fun i => i⟩
+/-- the label of node `i` -/
+def Lab.f (lab : Lab) (i : Nat) : Nat := lab.lst.getD i i
+
+def Lab.id : Lab := ⟨[], by simp⟩
+
+/-- the same labels with the table extended (by identity) to at least `k` nodes -/
+def Lab.grow (lab : Lab) (k : Nat) : Lab :=
+  ⟨lab.lst ++ List.range' lab.lst.length (k - lab.lst.length), by
+    intro x hx
+    simp only [List.length_append, List.length_range']
+    rcases List.mem_append.1 hx with h | h
+    · have := lab.ok x h; omega
+    · have := List.mem_range'_1.1 h; omega⟩
+
+theorem Lab.grow_f (lab : Lab) (k i : Nat) : (lab.grow k).f i = lab.f i := by
+  unfold Lab.f Lab.grow
+  simp only [List.getD_eq_getElem?_getD]
+  by_cases h1 : i < lab.lst.length
+  · rw [List.getElem?_append_left h1]
+  · rw [List.getElem?_append_right (by omega), List.getElem?_eq_none (show lab.lst.length ≤ i by omega)]
+    by_cases h2 : i - lab.lst.length < k - lab.lst.length
+    · rw [List.getElem?_range' h2]; simp; omega
+    · rw [List.getElem?_eq_none (by simp; omega)]
+
+theorem Lab.grow_length (lab : Lab) (k : Nat) : k ≤ (lab.grow k).lst.length := by
+  simp only [Lab.grow, List.length_append, List.length_range']; omega
+
+theorem Lab.f_lt (lab : Lab) {i : Nat} (h : i < lab.lst.length) : lab.f i < lab.lst.length := by
+  unfold Lab.f
+  rw [List.getD_eq_getElem?_getD, List.getElem?_eq_getElem h]
+  exact lab.ok _ (List.getElem_mem h)
 
 /-- merge the class of `b` into the class of `a` -/
 def union (lab : Lab) (a b : Nat) : Lab :=
-  let la := lab.f a
-  let lb := lab.f b
-  ⟨fun i => let li := lab.f i; if li = lb then la else li⟩
+  let g := lab.grow (max a b + 1)
+  let la := g.f a
+  let lb := g.f b
+  ⟨g.lst.map (fun li => if li = lb then la else li), by
+    intro x hx
+    obtain ⟨li, hli, rfl⟩ := List.mem_map.1 hx
+    simp only [List.length_map]
+    have hlen : max a b + 1 ≤ g.lst.length := lab.grow_length (max a b + 1)
+    split
+    · exact g.f_lt (by omega)
+    · exact g.ok li hli⟩
+
+theorem Lab.id_f (i : Nat) : Lab.id.f i = i := by simp [Lab.id, Lab.f]
+
+theorem Lab.relabel_getD (g : Lab) (a b i : Nat) (hlen : max a b + 1 ≤ g.lst.length) :
+    (g.lst.map (fun li => if li = g.f b then g.f a else li)).getD i i =
+      if g.f i = g.f b then g.f a else g.f i := by
+  rw [List.getD_eq_getElem?_getD, List.getElem?_map]
+  by_cases hi : i < g.lst.length
+  · have : g.f i = g.lst[i] := by
+      unfold Lab.f; rw [List.getD_eq_getElem?_getD, List.getElem?_eq_getElem hi]; rfl
+    rw [List.getElem?_eq_getElem hi, this]; rfl
+  · have hfi : g.f i = i := by
+      unfold Lab.f; rw [List.getD_eq_getElem?_getD, List.getElem?_eq_none (by omega)]; rfl
+    have hb : g.f b < g.lst.length := g.f_lt (by omega)
+    rw [List.getElem?_eq_none (by omega), hfi]
+    have : i ≠ g.f b := by omega
+    simp [this]
+
+/-- the law the proofs use: the class of `b` takes the label of `a`, everything else keeps its label -/
+theorem union_f (lab : Lab) (a b i : Nat) :
+    (union lab a b).f i = if lab.f i = lab.f b then lab.f a else lab.f i := by
+  rw [← lab.grow_f (max a b + 1) i, ← lab.grow_f (max a b + 1) a, ← lab.grow_f (max a b + 1) b]
+  exact (lab.grow (max a b + 1)).relabel_getD a b i (lab.grow_length _)
 
 /-- component labels after joining the endpoints of every edge of `F` -/
 def labOf (F : List Edge) : Lab := F.foldl (fun lab e => union lab e.u e.v) Lab.id
